@@ -78,7 +78,7 @@ def run(ck):
             where = "lambda in " + IDLE
         ck.ob("C08-R1", "caller-of:handlePeerDisconnection<-%s" % where.replace("Pistache::", ""), ok, e.loc, f, "called from %s" % where)
     nclose = 0
-    for f in prog.library_funcs():
+    for f in prog.flat_library_funcs():     # (a close wrapper introduced since is part of its callers)
         if f.file.startswith(facts.VERIF) or "/client/" in f.file:
             continue
         fdvars = {d["var"] for d in f.events("decl") if strip_tmpl(d.get("icall") or "") == PEER_FD}
@@ -582,4 +582,38 @@ def run(ck):
     ck.ob("C08-R17", "no-half-close", not shut, (shut[0][1].loc if shut else ""), (shut[0][0] if shut else ""),
           "no call of shutdown(2) in the library" if not shut else
           "%s calls shutdown() on a connection's descriptor: the release path is the only way a connection ends" % shut[0][0].name)
+
+    # ---------------- R18: a descriptor is closed by one close() ----------------
+    ck.rule("C08-R18", "C loop-freedom (close is not re-issued)",
+            "close(2) releases the descriptor number even when it reports EINTR: no library code calls close() on the same descriptor "
+            "again in a loop (a `do close(fd) while (EINTR)` wrapper) -- the second call closes whatever connection the acceptor has "
+            "put on that number in between", 1)
+    ncl = 0
+    for f in prog.library_funcs():
+        if not f.blocks or f.file.startswith(facts.VERIF):
+            continue
+        cls_ = [e for e in f.events("call") if libc(e, "close")]
+        if not cls_:
+            continue
+        loops_ = cfg.natural_loops(f)
+        for e in cls_:
+            ncl += 1
+            inl = [(h_, b_) for h_, b_ in loops_ if e.block in b_]
+            again = False
+            for h_, b_ in inl:
+                v_ = (e["args"][0].get("v") or e["args"][0].get("root")) if e.get("args") else None
+                renewed = any((x["k"] == "decl" and x.get("var") == v_) or (x["k"] == "assign" and ((x.get("lhs") or {}).get("v") == v_ or (x.get("lhs") or {}).get("root") == v_))
+                              for bb in b_ for x in f.blocks[bb].elems)
+                fieldy = bool(e["args"][0].get("f")) if e.get("args") else False
+                if v_ and not renewed and not fieldy and v_ not in {p_["name"] for p_ in f.params if "&" in (p_.get("type") or "")}:
+                    # the loop variable of a range-for / an iterator is renewed by the loop itself
+                    it_like = any(x["k"] == "decl" and x.get("var") == v_ for x in f.blocks[h_].elems)
+                    if not it_like:
+                        again = True
+            if again:
+                ck.ob("C08-R18", "%s/close-once" % f.base.replace("Pistache::", ""), False, e.loc, f,
+                      "close(%s) at line %s sits in a loop that does not renew `%s`: it can be issued twice for the same descriptor number"
+                      % (e["args"][0].get("t"), e.get("l"), e["args"][0].get("t")))
+    ck.ob("C08-R18", "close-calls-examined", True, "", "", "%d close() call sites; none re-issued in a loop on the same descriptor" % ncl, nontrivial=False)
+    ck.require(ncl >= 3, "close() call sites in the library: %d" % ncl)
 
